@@ -198,6 +198,8 @@ pub enum Step {
     Settle,
     /// run the default schedule until node i is Leader
     UntilLeader(u8),
+    /// run the default schedule until node i is Candidate
+    UntilCandidate(u8),
     Ev(Event),
     /// append at the (lowest-numbered) current leader
     AppendAtLeader,
@@ -226,6 +228,17 @@ pub fn build_base(name: &'static str, script: &[Step]) -> Base {
                 for _ in 0..*n {
                     let ev = default_event(&w);
                     go(&mut w, ev, &mut events);
+                }
+            }
+            Step::UntilCandidate(i) => {
+                let mut n = 0;
+                while w.nodes[*i as usize].v_state().0 != crate::raft::V_CANDIDATE {
+                    let ev = default_event(&w);
+                    go(&mut w, ev, &mut events);
+                    n += 1;
+                    if n > 2000 {
+                        engine::machinery_failure(&format!("base {name}: node {i} does not become candidate on the default schedule"));
+                    }
                 }
             }
             Step::UntilLeader(i) => {
@@ -281,6 +294,8 @@ pub fn bases(thorough: bool) -> Vec<Base> {
         build_base("stale-leader-rejoins", &[Settle, Ev(Isolate(0)), AppendAt(0), Default(4), Settle, Ev(Heal)]),
         // same, and the new leader has appended an entry of its own that is committed by the majority
         build_base("stale-leader-rejoins-after-new-commit", &[Settle, Ev(Isolate(0)), AppendAt(0), Default(4), Settle, AppendAtLeader, Settle, Ev(Heal)]),
+        // leader 0 cut off; node 1 has just become candidate (its vote requests are in flight)
+        build_base("reelection-in-progress-old-leader-cut-off", &[Settle, Ev(Isolate(0)), UntilCandidate(1)]),
         // a follower was cut off while an entry was committed; it rejoins now
         build_base("lagging-follower-rejoins", &[Settle, Ev(Isolate(2)), AppendAtLeader, Settle, Ev(Heal)]),
     ];
@@ -499,7 +514,7 @@ pub struct E2Stats {
     pub capped: bool,
 }
 
-pub fn deviations(w: &World, cfg: &E2Cfg) -> Vec<Event> {
+pub fn deviations(w: &World, cfg: &E2Cfg, base_appends: u8) -> Vec<Event> {
     let mut d = vec![];
     if let Some(_head) = w.net.first() {
         d.push(Event::Drop(0));
@@ -521,7 +536,7 @@ pub fn deviations(w: &World, cfg: &E2Cfg) -> Vec<Event> {
         }
         Some(_) => d.push(Event::Heal),
     }
-    if w.appends < cfg.max_appends {
+    if w.appends - base_appends < cfg.max_appends {
         for i in w.leaders() {
             d.push(Event::Append(i as u8));
         }
@@ -533,11 +548,16 @@ struct Seed {
     w: World,
     devs: Vec<(u32, Event)>,
     pos: u32,
+    base: usize,
 }
 
 /// concrete event list of a deviation script: default steps with the deviations at their positions, `len` events
 pub fn concretize(devs: &[(u32, Event)], len: u32) -> Vec<Event> {
-    let mut w = World::new(false);
+    concretize_from(&World::new(false), devs, len)
+}
+
+pub fn concretize_from(start: &World, devs: &[(u32, Event)], len: u32) -> Vec<Event> {
+    let mut w = start.clone();
     let mut out = vec![];
     let mut di = 0;
     while (out.len() as u32) < len {
@@ -553,7 +573,7 @@ pub fn concretize(devs: &[(u32, Event)], len: u32) -> Vec<Event> {
     out
 }
 
-pub fn run_e2(cfg: &E2Cfg, col: &Collector, seed: i64, distinct: Option<&Distinct>) -> E2Stats {
+pub fn run_e2(bases: &[Base], cfg: &E2Cfg, col: &Collector, seed: i64, distinct: Option<&Distinct>) -> E2Stats {
     let mut stats = E2Stats::default();
     let visited: Vec<Mutex<HashMap<u128, ()>>> = (0..SHARDS).map(|_| Mutex::new(HashMap::new())).collect();
     let states = AtomicU64::new(0);
@@ -563,7 +583,7 @@ pub fn run_e2(cfg: &E2Cfg, col: &Collector, seed: i64, distinct: Option<&Distinc
     let term_hits = AtomicU64::new(0);
     let longest = AtomicU64::new(0);
     let failed = AtomicBool::new(false);
-    let mut seeds: Vec<Seed> = vec![Seed { w: World::new(false), devs: vec![], pos: 0 }];
+    let mut seeds: Vec<Seed> = bases.iter().enumerate().map(|(bi, b)| Seed { w: b.world.clone(), devs: vec![], pos: 0, base: bi }).collect();
     // layer 0 has one seed that is itself the start of a walk; later layers hold the states
     // from which deviations are applied
     let mut layer_is_start = true;
@@ -571,7 +591,7 @@ pub fn run_e2(cfg: &E2Cfg, col: &Collector, seed: i64, distinct: Option<&Distinc
         let s0 = states.load(Ordering::SeqCst);
         let e0 = executions.load(Ordering::SeqCst);
         let next: Mutex<Vec<Seed>> = Mutex::new(vec![]);
-        let walk = |mut w: World, devs: &Vec<(u32, Event)>, mut pos: u32, local_next: &mut Vec<Seed>| {
+        let walk = |mut w: World, devs: &Vec<(u32, Event)>, mut pos: u32, base: usize, local_next: &mut Vec<Seed>| {
             executions.fetch_add(1, Ordering::Relaxed);
             let mut steps = 0u32;
             loop {
@@ -592,7 +612,7 @@ pub fn run_e2(cfg: &E2Cfg, col: &Collector, seed: i64, distinct: Option<&Distinc
                     break;
                 }
                 if layer < cfg.k {
-                    local_next.push(Seed { w: w.clone(), devs: devs.clone(), pos });
+                    local_next.push(Seed { w: w.clone(), devs: devs.clone(), pos, base });
                 }
                 let ev = default_event(&w);
                 let viols = w.apply(ev).unwrap_or_else(|e| panic!("HARNESS: default event {} refused: {e}", ev.to_text()));
@@ -600,7 +620,7 @@ pub fn run_e2(cfg: &E2Cfg, col: &Collector, seed: i64, distinct: Option<&Distinc
                 pos += 1;
                 steps += 1;
                 if !viols.is_empty() {
-                    col.add(&viols, || Witness { regime: "E2", base: vec![], multiset: false, events: concretize(devs, pos), devs: devs.clone() });
+                    col.add(&viols, || Witness { regime: "E2", base: bases[base].events.clone(), multiset: false, events: concretize_from(&bases[base].world, devs, pos), devs: devs.clone() });
                 }
                 if steps >= cfg.walk_cap {
                     if cap_hits.fetch_add(1, Ordering::Relaxed) < 5 && std::env::var("VERIF_RAFT_DEBUG").is_ok() {
@@ -620,18 +640,18 @@ pub fn run_e2(cfg: &E2Cfg, col: &Collector, seed: i64, distinct: Option<&Distinc
             for sd in &seeds[lo..hi] {
                 let r = engine::catch(|| {
                     if layer_is_start {
-                        walk(sd.w.clone(), &sd.devs, sd.pos, &mut local_next);
+                        walk(sd.w.clone(), &sd.devs, sd.pos, sd.base, &mut local_next);
                     } else {
-                        for d in deviations(&sd.w, cfg) {
+                        for d in deviations(&sd.w, cfg, bases[sd.base].world.appends) {
                             let mut w = sd.w.clone();
                             let viols = w.apply(d).unwrap_or_else(|e| panic!("HARNESS: deviation {} refused: {e}", d.to_text()));
                             transitions.fetch_add(1, Ordering::Relaxed);
                             let mut devs = sd.devs.clone();
                             devs.push((sd.pos, d));
                             if !viols.is_empty() {
-                                col.add(&viols, || Witness { regime: "E2", base: vec![], multiset: false, events: concretize(&devs, sd.pos + 1), devs: devs.clone() });
+                                col.add(&viols, || Witness { regime: "E2", base: bases[sd.base].events.clone(), multiset: false, events: concretize_from(&bases[sd.base].world, &devs, sd.pos + 1), devs: devs.clone() });
                             }
-                            walk(w, &devs, sd.pos + 1, &mut local_next);
+                            walk(w, &devs, sd.pos + 1, sd.base, &mut local_next);
                         }
                     }
                 });
